@@ -19,6 +19,8 @@ PY5  None conflated with a falsy value: a truth test (``if x`` / ``if not x`` / 
 PY6  float stored into an integer array: ``np.fromiter / np.array / np.asarray(<elements>, dtype=int)`` whose element expression is float-typed (a property /
      field / function annotated ``float``, e.g. ``end_time``), or an array created with an integer fill (``np.full(n, 0)``, ``np.zeros(n, dtype=int)``) that is later
      assigned such an expression: numpy truncates towards zero without a word.
+PY7  derived value held in an init field: ``__post_init__`` fills a defaulted init field of a dataclass from other init fields (stale under
+     ``dataclasses.replace`` and after the source changes).
 PY4  replicated or default mutable: a mutable display as parameter default that the function changes in place; ``[<mutable display>] * n``;
      ``dict.fromkeys(keys, <mutable display>)``.
 """
@@ -572,6 +574,39 @@ def none_conflated(model: Model, f: FunctionInfo) -> Iterator[Slip]:
 
 
 # ---------------------------------------------------------------------------------------------------------------------
+def derived_init_field(model: Model, f: FunctionInfo) -> Iterator[Slip]:
+    """PY7: ``__post_init__`` of a dataclass fills an INIT field (one the constructor accepts, with a default) from other init fields of the same object.  The
+    derived value then travels as an argument: ``dataclasses.replace(obj, source=..)`` and every copy-by-reconstruction pass the OLD derived value on, and a change
+    of the source field is not followed.  (A derived value belongs in a property or an ``init=False`` field.)"""
+    c = f.cls
+    if c is None or f.name != "__post_init__" or not c.is_dataclass:
+        return
+    flds = c.all_fields()
+    init_fields = {n for n, fi in flds.items() if fi.init is not False}
+    sn = f.self_name
+    for n in ast.walk(f.node):
+        tgt, val = None, None
+        if isinstance(n, (ast.Assign, ast.AnnAssign)) and n.value is not None:
+            for t in (n.targets if isinstance(n, ast.Assign) else [n.target]):
+                if isinstance(t, ast.Attribute) and isinstance(t.value, ast.Name) and t.value.id == sn:
+                    tgt, val = t.attr, n.value
+        elif isinstance(n, ast.Call) and ast.unparse(n.func).endswith("__setattr__") and len(n.args) == 3 and isinstance(n.args[1], ast.Constant) \
+                and isinstance(n.args[0], ast.Name) and n.args[0].id == sn:
+            tgt, val = n.args[1].value, n.args[2]
+        if tgt is None or tgt not in init_fields:
+            continue
+        fi = flds[tgt]
+        if fi.default is None and fi.default_factory is None:
+            continue                    # a required argument that is normalised in place is another matter (not this lint)
+        sources = sorted({y.attr for y in ast.walk(val) if isinstance(y, ast.Attribute) and isinstance(y.value, ast.Name) and y.value.id == sn
+                          and y.attr in init_fields and y.attr != tgt})
+        if not sources:
+            continue
+        yield Slip("PY7", f, n, f"`{c.name}.{tgt}` is a constructor argument (init field with a default) that __post_init__ derives from {sources}: dataclasses.replace(obj, "
+                                f"{sources[0]}=..) and any rebuild from the object's fields pass the old `{tgt}` on, and a later change of `{sources[0]}` is not followed -- "
+                                f"the derived value goes stale", f"derived:{tgt}")
+
+
 def scan(model: Model, keep_module) -> Tuple[List[Slip], int]:
     out: List[Slip] = []
     n = 0
@@ -587,6 +622,7 @@ def scan(model: Model, keep_module) -> Tuple[List[Slip], int]:
             out.extend(gen(f))
         out.extend(none_conflated(model, f))
         out.extend(float_into_int_array(model, f))
+        out.extend(derived_init_field(model, f))
     return out, n
 
 
